@@ -111,7 +111,7 @@ class Phase:
                         conds[int(key)] = self._query_cond(text)
                 q = Queries(conds)
                 # object addresses are part of the repeatable execution (pristine fork server, no ASLR)
-                S.trace("addr", [id(c) & 0xFFFFFFF for c in conds.values()][:4])
+                S.trace_addr([id(c) & 0xFFFFFFF for c in conds.values()][:4])
                 kw = {}
                 if not self.zero:
                     kw = dict(
@@ -403,6 +403,7 @@ def _finish(doc, S, violations, extra):
     res = {
         "violations": violations,
         "digest": S.digest(),
+        "addr_digest": S.addr_digest(),
         "events": S.n_events,
         "vtime": round(S.vtime_total, 6),
         "fired": dict(S.fired),
